@@ -151,3 +151,25 @@ Definition attrs_validb_t (e : env) (dm : nat -> list attdef) (doc : tdoc) : boo
   tnodup (flat_map id_toks (all_effective_t dm doc)) &&
   forallb (fun t => tmem t (flat_map id_toks (all_effective_t dm doc)))
           (flat_map ref_toks (all_effective_t dm doc)).
+
+(** ---- the declarations of a DTD and its separate name spaces (XML 1.0 section 4.2) -----------------
+    General entities, parameter entities, notations and element types are four name spaces; within one kind the
+    FIRST declaration of a name is binding.  [env_of_decls] is the entity environment the attribute constraints
+    see: a name is an unparsed (parsed) general entity iff its first GENERAL-entity declaration says so, whatever
+    parameter entities, notations or element types carry the same name and wherever they stand. *)
+Inductive dkind : Type := KUnparsed | KParsed | KParam | KNotation | KElement.
+Definition decl : Type := (dkind * nat)%type.
+
+Definition is_general (k : dkind) : bool := match k with KUnparsed | KParsed => true | _ => false end.
+
+Fixpoint first_general (n : nat) (ds : list decl) : option dkind :=
+  match ds with
+  | [] => None
+  | (k, m) :: r => if is_general k && Nat.eqb m n then Some k else first_general n r
+  end.
+
+Definition gnames (ds : list decl) : list nat := map snd (filter (fun d => is_general (fst d)) ds).
+
+Definition env_of_decls (ds : list decl) : env :=
+  mkEnv (filter (fun n => match first_general n ds with Some KUnparsed => true | _ => false end) (gnames ds))
+        (filter (fun n => match first_general n ds with Some KParsed => true | _ => false end) (gnames ds)).
